@@ -105,6 +105,29 @@ def discovery(ctx):
         shutil.rmtree(root, ignore_errors=True)
 
 
+def init_first(ctx):
+    """`init` as the very first command on each layout (the lock file, which is not data, may be missing after a copy or clone), in every spelling"""
+    for plans, events, lock in itertools.product([True, False], repeat=3):
+        for spell in ("init", "init .", "init <abs>", "init from sub"):
+            root, proj, st = mk_project(ctx, plans, events, lock)
+            try:
+                label = "plans=%s events=%s lock=%s" % (plans, events, lock)
+                before = snapshot_via(st, proj, [])
+                argv, cwd = {"init": (["--json", "init"], proj), "init .": (["--json", "init", "."], proj), "init <abs>": (["--json", "init", proj], root),
+                             "init from sub": (["--json", "init", ".."], os.path.join(proj, "sub"))}[spell]
+                for i in range(2):
+                    ri = st.exec(argv, cwd=cwd)
+                    after = snapshot_via(st, proj, [])
+                    ctx.count(1, key=("init-first", label, spell, i))
+                    if ri["exit"] != 0 or after != before:
+                        shown = lambda sn: sn[1] if sn[0] != 0 else [t["title"] for t in sn[1]]
+                        ctx.violation("C18 init changed what the store shows (%s)" % ("legacy events.jsonl only" if (events and not plans) else label),
+                                      "`ergo %s` as the first command on a store with %s: exit %s; listing before %s, after %s" % (spell, label, ri["exit"], shown(before), shown(after)),
+                                      {"layout": label, "trace": [{"argv": argv, "cwd": cwd}]}); return
+            finally:
+                shutil.rmtree(root, ignore_errors=True)
+
+
 def file_layouts(ctx):
     for plans, events, lock in itertools.product([True, False], repeat=3):
         root, proj, st = mk_project(ctx, plans, events, lock)
@@ -153,6 +176,7 @@ def run(ctx):
     for d in res["diffs"][:3]:
         ctx.tie_broken("T2-fn path functions", {"first_difference": fndiff.first_difference(d["go"], d["model"]), "p": "".join(map(chr, d["req"]["p"])), "start": "".join(map(chr, d["req"]["start"]))})
     discovery(ctx)
+    init_first(ctx)
     file_layouts(ctx)
     ctx.cov["exhaustive"] = True
     ctx.cov["rule"] = ("generated path strings → Go Clean/Dir/Base/Join/resolveErgoDir (real temp tree, chdir) vs model; then exhaustively: 5 working directories × 7 target directories "
